@@ -83,3 +83,6 @@ def replay_c09(ws, pid, unit_, job_, rec, failed, report):
         if out and out['exit'] != 0: return True
     return False
 REPLAY[r'(bounded\.)?str\.(split_string|split_cstr|split_char|split|tokenize|replace)(\.\d)?'] = replay_c09
+unit('string_hash', functions=['ST::hash::operator()', 'ST::hash_i::operator()'], stubs=[], spec='contracts/string_hash.spec', harness='harness/string_hash.c', include=['spec/strpriv_spec.h', 'spec/strpriv_ghost.h', 'spec/hash_ghost.h'])
+job('string_hash', 'str.hash', 'h_str_hash', ['C06', 'C04'], solver='cadical', defines=['HASH_I=0'], expect=[r'ST_hash\.postcondition\.[12]', r'ST_hash_op_call\.loop0\.invariant_step', r'ST_hash_op_call\.loop0\.decreases'])
+job('string_hash', 'str.hash_i', 'h_str_hash', ['C06', 'C04'], solver='cadical', defines=['HASH_I=1'], expect=[r'ST_hash\.postcondition\.[12]', r'ST_hash_i_op_call\.loop0\.invariant_step', r'ST_hash_i_op_call\.loop0\.decreases'])
